@@ -212,7 +212,10 @@ def register(M):
             return int(v)
         if z3.is_int(v):
             return v
-        return cast(v, 'int')
+        # truncation toward zero, stated with linear constraints (friendlier to the solver than to_int)
+        r = z3.Int(fresh_name('trunc'))
+        st.assume(z3.If(v >= 0, z3.And(to_real(r) <= v, v < to_real(r) + 1), z3.And(to_real(r) - 1 < v, v <= to_real(r))))
+        return r
     B['int'] = b_int
     B['float'] = lambda args, kw, st, node: to_real(Z(num(st.deref(args[0])))) if is_z3(st.deref(args[0])) else float(st.deref(args[0]))
 
